@@ -34,6 +34,7 @@ type c03script struct {
 	onResult, onProgress, onProfile, onEvents, onEvent, onLogs, onLog bool
 	failAt                                                            map[string]int
 	clientRev, serverRev                                              int
+	ctxDeadline                                                       bool // Do runs under a context with a far deadline
 }
 
 var errSentinel = errors.New("callback sentinel failure")
@@ -110,6 +111,7 @@ func drawScript(rt *rapid.T) c03script {
 	} else {
 		s.items = append(s.items, Item{Kind: "eos"})
 	}
+	s.ctxDeadline = rapid.Bool().Draw(rt, "ctx-with-far-deadline")
 	s.onResult = rapid.Bool().Draw(rt, "on-result")
 	s.onProgress = rapid.Bool().Draw(rt, "on-progress")
 	s.onProfile = rapid.Bool().Draw(rt, "on-profile")
@@ -410,7 +412,13 @@ func runScriptOpts(rt *rapid.T, s c03script, segsFor func(i int, n int) []int, g
 			return fail("log")
 		}
 	}
-	out.err = doBounded(rt, e, client, context.Background(), q, 5*time.Minute, "script "+s.describe())
+	ctx := context.Background()
+	if s.ctxDeadline {
+		var cancel context.CancelFunc
+		ctx, cancel = context.WithTimeout(ctx, time.Hour)
+		defer cancel()
+	}
+	out.err = doBounded(rt, e, client, ctx, q, 5*time.Minute, "script "+s.describe())
 	_ = client
 	return out, e
 }
@@ -420,8 +428,8 @@ func (s c03script) describe() string {
 	for _, it := range s.items {
 		items = append(items, it.String())
 	}
-	return fmt.Sprintf("[%s] binding=%s comp=%s client=%d server=%d callbacks(result=%v progress=%v profile=%v events=%v event=%v logs=%v log=%v) failAt=%v",
-		strings.Join(items, " "), s.binding, s.comp.Name, s.clientRev, s.serverRev, s.onResult, s.onProgress, s.onProfile, s.onEvents, s.onEvent, s.onLogs, s.onLog, s.failAt)
+	return fmt.Sprintf("[%s] ctx-deadline=%v binding=%s comp=%s client=%d server=%d callbacks(result=%v progress=%v profile=%v events=%v event=%v logs=%v log=%v) failAt=%v",
+		strings.Join(items, " "), s.ctxDeadline, s.binding, s.comp.Name, s.clientRev, s.serverRev, s.onResult, s.onProgress, s.onProfile, s.onEvents, s.onEvent, s.onLogs, s.onLog, s.failAt)
 }
 
 func judgeC03(rt *rapid.T, s c03script, out c03outcome) {
